@@ -106,7 +106,9 @@ func (c JSONMapCodec) Read(data []byte, ptr unsafe.Pointer, wt plenccore.WireTyp
 
 	m := *(*map[string]any)(ptr)
 	if m == nil {
-		m = make(map[string]any, count)
+		// Sized for the entries that are really there, not for what the
+		// count claims
+		m = make(map[string]any, entriesPresent(data[n:], count))
 		*(*map[string]any)(ptr) = m
 	}
 
@@ -197,10 +199,11 @@ func (c JSONArrayCodec) Read(data []byte, ptr unsafe.Pointer, wt plenccore.WireT
 
 	// The result holds exactly the encoded elements, whatever the target held
 	// before
-	a := make([]any, count)
-	*(*[]any)(ptr) = a
+	// with room for the entries that are really there, not for what the count
+	// claims
+	a := make([]any, 0, entriesPresent(data[n:], count))
 
-	for i := range a {
+	for i := uint64(0); i < count; i++ {
 		l, n := plenccore.ReadVarUint(data[offset:])
 		if n <= 0 {
 			return 0, fmt.Errorf("bad length in array")
@@ -210,12 +213,15 @@ func (c JSONArrayCodec) Read(data []byte, ptr unsafe.Pointer, wt plenccore.WireT
 			return 0, fmt.Errorf("array entry length %d exceeds data length", l)
 		}
 
-		n, err := readJSONKV(data[offset:offset+int(l)], nil, &a[i])
+		var v any
+		n, err := readJSONKV(data[offset:offset+int(l)], nil, &v)
 		if err != nil {
 			return 0, err
 		}
+		a = append(a, v)
 		offset += n
 	}
+	*(*[]any)(ptr) = a
 
 	return offset, nil
 }
